@@ -55,7 +55,12 @@ void tokens_reset(AsmContext *asm_context)
 {
   if (asm_context->tokens.in != NULL)
   {
-    fseek(asm_context->tokens.in, 0, SEEK_SET);
+    // The source is read once for each pass: a pipe can't be assembled.
+    if (fseek(asm_context->tokens.in, 0, SEEK_SET) != 0)
+    {
+      printf("Error: Couldn't rewind the source file (is it a pipe?)\n");
+      exit(1);
+    }
   }
 
   asm_context->tokens.token_buffer.ptr = 0;
